@@ -923,6 +923,16 @@ impl Domain for ClusterDomain {
                     Some(Ok((_, set))) => format!("accepted {}", hex(dump_set(&set).as_bytes()).len()),
                 }
             },
+            "envelope-bytes" => {
+                // envelope-bytes <timestamp u64> <last_updated u64> <hex nested bytes|->: the frame of a GetState reply with these
+                // fields, byte for byte (`to_view_bytes(&KeyspaceOrSwotSet{..})`); the Lean model (Model/Envelope.lean) has the
+                // archive layout of the envelope and must produce the same bytes.  Also whether rkyv's validation - the check
+                // `get_state` makes before it follows the envelope - accepts them.
+                let env = KeyspaceOrSwotSet { timestamp: HLCTimestamp::from_u64(p_u64(t[1])), last_updated: HLCTimestamp::from_u64(p_u64(t[2])), set: crate::unhex(t[3]) };
+                let frame = datacake_rpc::to_view_bytes(&env).expect("view");
+                let ok = rkyv::check_archived_root::<KeyspaceOrSwotSet>(&frame[..frame.len() - 4]).is_ok();
+                format!("frame {} valid={}", hex(&frame), ok)
+            },
             "badenvelope" => {
                 // badenvelope <j> <kind> <n>: node j asks a peer whose GetState reply is the byte-exact honest reply for a set of
                 // `n` entries with ONE field of the envelope changed and the CRC recomputed:
